@@ -391,7 +391,9 @@ pub struct InputSpec {
     pub len: usize,
     pub chans: Vec<ChanSpec>,
     /// stereo relation (applies to channel 1 relative to 0 when channels >= 2):
-    /// 0 independent, 1 identical, 2 negated, 3 L + tiny noise, 4 one channel silent
+    /// 0 independent, 1 identical, 2 negated, 3 L + tiny noise, 4 one channel silent,
+    /// 5 L + non-zero constant (constant side channel), 6 constant - L (constant mid channel),
+    /// 7 L delayed by one sample, 8 L + constant in the first half only (side constant per frame at best)
     pub rel: u8,
     pub seed: u64,
     /// explicit interleaved samples (fuzz-produced cases); when set, `chans` / `rel` / `seed` are ignored
@@ -584,6 +586,27 @@ impl InputSpec {
                     }
                 }
                 4 => chans[1].iter_mut().for_each(|x| *x = 0),
+                5 | 6 | 8 => {
+                    let c0 = chans[0].clone();
+                    let (mn, mx) = c0.iter().fold((0i64, 0i64), |(a, b), x| (a.min(*x as i64), b.max(*x as i64)));
+                    let mag = [1i64, 2, 3, 14, 255, 1 << (self.bps - 2)][(self.seed % 6) as usize];
+                    let n = c0.len();
+                    for (t, x) in chans[1].iter_mut().enumerate() {
+                        let l = c0[t] as i64;
+                        *x = match self.rel {
+                            // an offset that keeps every sample inside the width when one exists (exactly constant side)
+                            5 => if mx + mag <= hi { l + mag } else if mn - mag >= lo { l - mag } else { (l + mag).clamp(lo, hi) },
+                            6 => (mag - l).clamp(lo, hi),
+                            _ => if t < n / 2 { (l + mag).clamp(lo, hi) } else { l },
+                        } as i32;
+                    }
+                }
+                7 => {
+                    let c0 = chans[0].clone();
+                    for (t, x) in chans[1].iter_mut().enumerate() {
+                        *x = if t == 0 { 0 } else { c0[t - 1] };
+                    }
+                }
                 _ => {}
             }
         }
@@ -690,7 +713,7 @@ pub fn input_strategy(block: usize, o: InOpts) -> BoxedStrategy<InputSpec> {
     } else {
         proptest::sample::select(WIDTHS.to_vec()).boxed()
     };
-    (channels, bps, rate_strategy(), any::<u64>(), 0u8..=4)
+    (channels, bps, rate_strategy(), any::<u64>(), 0u8..=8)
         .prop_flat_map(move |(channels, bps, rate, seed, rel)| {
             let per_ch = (o.budget / channels).max(40);
             (
@@ -729,7 +752,7 @@ pub fn lpc_stress_input_strategy(block: usize) -> BoxedStrategy<InputSpec> {
         prop_oneof![1 => Just(8usize), 1 => Just(12usize), 2 => Just(16usize), 3 => Just(20usize), 5 => Just(24usize)],
         rate_strategy(),
         any::<u64>(),
-        0u8..=4,
+        0u8..=8,
     )
         .prop_flat_map(move |(channels, bps, rate, seed, rel)| {
             (len_strategy(block, (16_000 / channels).max(block)), proptest::collection::vec(chan(), channels..=channels))
